@@ -149,8 +149,10 @@ func runC10(c *Ctx) {
 					if u, isNot := condV.(*ssa.UnOp); isNot && u.Op == token.NOT {
 						condV, truth = u.X, !truth
 					}
-					if pc, isCall := condV.(*ssa.Call); isCall && !truth {
-						facts := l.PredicateFactStrings(pc)
+					if pc, isCall := condV.(*ssa.Call); isCall {
+						// fits(size) rejects on its false outcome, outOfBounds(size) on its true outcome: what the helper
+						// implies on the accepting outcome must be exactly the two accept bounds
+						facts := l.PredicateFactStringsWhen(pc, !truth)
 						want := map[string]bool{canonLE(core.Zero, st, so): true}
 						for _, m := range mts {
 							want[canonLE(st, m, -so)] = true
